@@ -256,6 +256,54 @@ func queueWaiters() map[string]bool {
 	return out
 }
 
+// closeRaceCase: workers that have been woken for a job are held at the yield point between their
+// wake-up and their dequeue (no lock is held there), Close runs to completion, then they are released.
+// Nothing was dequeued before Close returned, so no job may be executed at all: a job that runs was
+// handed out by a closed queue.
+func closeRaceCase(c *kit.Case) {
+	r := c.R
+	workers := r.Range(1, 3)
+	nJobs := r.Range(1, 4)
+	d := dissolve.New(workers)
+	_ = d.Run()
+	synctest.Wait() // every worker is parked in the queue
+	var reached, executed atomic.Int64
+	var armed atomic.Bool
+	release := make(chan struct{})
+	dissolve.VerifSetHook(func(p string) {
+		if p == "queue.beforeRemove" && armed.Load() {
+			reached.Add(1)
+			<-release
+		}
+	})
+	defer dissolve.VerifSetHook(nil)
+	armed.Store(true)
+	accepted := 0
+	for i := 0; i < nJobs; i++ {
+		if d.Submit(func() error { executed.Add(1); return nil }) == nil {
+			accepted++
+		}
+	}
+	synctest.Wait() // the woken workers sit at the yield point, before their dequeue
+	held := int(reached.Load())
+	_ = d.Close()
+	armed.Store(false)
+	close(release)
+	synctest.Wait()
+	time.Sleep(50 * time.Millisecond)
+	synctest.Wait()
+	c.Eval(1)
+	c.Count("close_race_cases", 1)
+	c.Count("workers_held_between_wakeup_and_dequeue_while_close_ran", held)
+	if n := executed.Load(); n > 0 {
+		c.Violation("c40-job-dequeued-from-closed-queue", fmt.Sprintf("%d of %d accepted jobs were executed although Close had returned before any worker dequeued anything (%d of %d workers were held between their wake-up and their dequeue while Close ran)", n, accepted, held, workers), map[string]any{"workers": workers, "jobs": nJobs, "held": held})
+	}
+	if held == 0 {
+		c.Inconclusive("close race case: no worker reached the yield point queue.beforeRemove")
+	}
+	c.Nontrivial(fmt.Sprintf("closerace w%d j%d h%d", workers, nJobs, held))
+}
+
 const handoffEvery = 40
 
 func runCase(c *kit.Case) {
@@ -265,6 +313,10 @@ func runCase(c *kit.Case) {
 	}
 	if c.Index%every == every-1 {
 		handoffCase(c)
+		return
+	}
+	if c.Index%20 == 7 {
+		kit.RunBubble(c, func() { closeRaceCase(c) })
 		return
 	}
 	kit.RunBubble(c, func() { bubbleCase(c) })
@@ -560,7 +612,7 @@ func TestC40(t *testing.T) {
 	kit.Main(t, kit.Spec{
 		ID:     "C40",
 		Level:  "fault_enumeration",
-		Rule: "every 40th case is a real-time hand-off case: 15 000 jobs (thorough: every 440th case, 60 000 jobs) submitted one at a time to an idle Dissolver with 1-2 workers, each right after the previous one succeeded plus a 0-60-iteration spin, every third failing once; a job that is late by 300 ms makes the case read a goroutine dump, and the violation is 'all worker goroutines parked in sync.Cond.Wait inside queue.Wait while the job accepted before the dump is still not executed after it' (a lost wake-up; timing decides nothing). All other cases: one synctest bubble with a Dissolver of 1..64 workers; 1-5 submit bursts (1-12 jobs, every 8th burst 30-150) from separate goroutines at virtual instants 0..60ms; each job scripted to fail its first f executions, f in {0,1,2,3,5,8}, each execution sleeping d in {0,1,1.5,3,10,50}ms of virtual time (the fault grid f x d x workers is drawn per job); Run at 0 or (20%) after the first submits; Close: 40% none before a horizon at which even one worker would have finished (then all accepted jobs must have succeeded), 50% at a uniformly random virtual instant of the expected makespan (half of them on a millisecond boundary so that it coincides with job ends/bursts), 10% at instant 0; 0-3 submits after Close returned. " +
+		Rule: "every 20th case is a close-race case: 1-3 parked workers, 1-4 jobs submitted, the woken workers held at the yield point between their wake-up and their dequeue (internal/dissolve queue.beforeRemove, no lock held) while Close runs to completion, then released: nothing was dequeued before Close returned, so no job may run. Every 40th case is a real-time hand-off case: 15 000 jobs (thorough: every 440th case, 60 000 jobs) submitted one at a time to an idle Dissolver with 1-2 workers, each right after the previous one succeeded plus a 0-60-iteration spin, every third failing once; a job that is late by 300 ms makes the case read a goroutine dump, and the violation is 'all worker goroutines parked in sync.Cond.Wait inside queue.Wait while the job accepted before the dump is still not executed after it' (a lost wake-up; timing decides nothing). All other cases: one synctest bubble with a Dissolver of 1..64 workers; 1-5 submit bursts (1-12 jobs, every 8th burst 30-150) from separate goroutines at virtual instants 0..60ms; each job scripted to fail its first f executions, f in {0,1,2,3,5,8}, each execution sleeping d in {0,1,1.5,3,10,50}ms of virtual time (the fault grid f x d x workers is drawn per job); Run at 0 or (20%) after the first submits; Close: 40% none before a horizon at which even one worker would have finished (then all accepted jobs must have succeeded), 50% at a uniformly random virtual instant of the expected makespan (half of them on a millisecond boundary so that it coincides with job ends/bursts), 10% at instant 0; 0-3 submits after Close returned. " +
 			"Every Submit call/return, execution start/end, Close call/return and the quiescence point after Close (synctest.Wait) is appended to one log under a mutex. Oracle: no execution of a job starts after one of its executions returned success; no execution starts after Close returned and the bubble settled; Submit is not rejected before Close was called; without Close every accepted job reaches success (exactly f+1 executions). " +
 			"Non-trivial = a case with at least one failed execution or a Close that found unfinished jobs; signature = buckets of (workers, jobs, failures, max f, close mode, executions running at close, unfinished at close, dropped, executions ending after close). evaluations = job executions.",
 		Assumptions: []string{
@@ -569,7 +621,7 @@ func TestC40(t *testing.T) {
 			"virtual time and quiescence as provided by testing/synctest; the execution log order is the order of the recorder mutex",
 		},
 		Cases:           map[string]int{"quick": 4000, "thorough": 60000},
-		RequireCounters: []string{"handoff_cases", "handoff_jobs", "retries_until_success", "cases_no_close_all_jobs_succeeded", "cases_closed_mid", "cases_closed_early", "close_with_executions_running", "close_with_jobs_unfinished", "jobs_dropped_by_close", "failed_after_close_not_retried", "submit_after_close_rejected", "cases_all_workers_busy_at_once", "cases_run_called_after_first_submits"},
+		RequireCounters: []string{"close_race_cases", "workers_held_between_wakeup_and_dequeue_while_close_ran", "handoff_cases", "handoff_jobs", "retries_until_success", "cases_no_close_all_jobs_succeeded", "cases_closed_mid", "cases_closed_early", "close_with_executions_running", "close_with_jobs_unfinished", "jobs_dropped_by_close", "failed_after_close_not_retried", "submit_after_close_rejected", "cases_all_workers_busy_at_once", "cases_run_called_after_first_submits"},
 		Run:             runCase,
 	})
 }
